@@ -40,6 +40,9 @@ pub enum RStyle {
     Read,
     ReadExact,
     Tokio,
+    /// `tokio::io::AsyncReadExt::read_exact` (the trait method, which keeps one `ReadBuf` across
+    /// polls — not the inherent `RecvStream::read_exact`)
+    TokioReadExact,
 }
 
 pub async fn send_payload(s: &mut SendStream, data: &[u8], style: WStyle, part: usize) -> Result<(), String> {
@@ -93,6 +96,23 @@ pub async fn recv_all(r: &mut RecvStream, style: RStyle, bufsz: usize, expect_le
             // whatever follows must be end-of-stream (or surplus bytes, which the oracle reports)
             loop {
                 match r.read(&mut buf).await.map_err(|e| format!("read after read_exact: {e}"))? {
+                    Some(n) => out.extend_from_slice(&buf[..n]),
+                    None => break,
+                }
+            }
+        }
+        RStyle::TokioReadExact => {
+            let total = expect_len.unwrap_or(0);
+            // large requests, so that one call spans several arrivals
+            let big = bufsz.max(4096);
+            let mut b = vec![0u8; big];
+            while out.len() < total {
+                let n = big.min(total - out.len());
+                AsyncReadExt::read_exact(r, &mut b[..n]).await.map_err(|e| format!("tokio read_exact: {e}"))?;
+                out.extend_from_slice(&b[..n]);
+            }
+            loop {
+                match r.read(&mut buf).await.map_err(|e| format!("read after tokio read_exact: {e}"))? {
                     Some(n) => out.extend_from_slice(&buf[..n]),
                     None => break,
                 }
@@ -197,7 +217,7 @@ fn spawn_acceptors(conn: Connection, dir_in: u8, reg: Registry, obs: Observed, s
                 n += 1;
                 let (obs, reg) = (obs.clone(), reg.clone());
                 let mut rng = Rng::derive(seed, n);
-                let mut style = *rng.pick(&[RStyle::Read, RStyle::Tokio, RStyle::ReadExact]);
+                let mut style = *rng.pick(&[RStyle::Read, RStyle::Tokio, RStyle::ReadExact, RStyle::TokioReadExact]);
                 let bufsz = *rng.pick(&[1usize, 3, 1024, 65536]);
                 tokio::spawn(async move {
                     let id = r.id().into_u64();
